@@ -24,11 +24,17 @@ MUTANTS = {                      # cfg -> invariants one of which TLC must repor
     "MC_ZSync_lt.cfg": ("RemoteExactlyOnce",),
     "MC_ZSync_before.cfg": ("SyncedAfterEffect",),
     "MC_ZSync_snapnosync.cfg": ("SyncedExact", "RemoteExactlyOnce", "SyncedMonotone", "SyncedSurvivesRestart"),
+    # sender decides "already replayed" from the first buffered entry (wave-3 mutant C19-2 as a spec mutant)
+    "MC_ZSyncSender_first.cfg": ("SenderTruthful", "DestinationIsPrefix"),
+    "MC_ZSyncSender_noapply.cfg": ("DestinationIsPrefix",),
 }
 # the faithful model of a multi-replica receiver (CancelPrefix: head proposals of a pipelined batch are
 # cancelled by a leader change while later ones commit) - TLC must refute RemoteExactlyOnce: the open
 # finding c19-pipelined-drop-on-leader-change is a result of the model too
 FINDING_MODELS = {"MC_ZSync_pipelined.cfg": ("RemoteExactlyOnce",)}
+# the sending side (spec/ZSyncSender.tla: Buffer / Flush / AckSynced / SenderRestart, two incarnations) on top of
+# the receiver: must hold as it is, and the two mutants must be refuted
+SENDER_MODEL = "MC_ZSyncSender.cfg"
 REDUNDANT = "MC_ZSync_norecv.cfg"   # the receive-time filter alone is an optimisation: must still hold
 
 _TAGS = {
@@ -248,14 +254,16 @@ def _run(ctx):
 
     # ---------------------------------------------------------------- (A) the design
     jobs = [("MC_ZSync_mid.cfg" if quick else "MC_ZSync_big.cfg", "main")]
-    jobs += [(c, inv) for c, inv in list(MUTANTS.items()) + list(FINDING_MODELS.items())] + [(REDUNDANT, "redundant")]
+    jobs += [(c, inv) for c, inv in list(MUTANTS.items()) + list(FINDING_MODELS.items())] + [(REDUNDANT, "redundant"), (SENDER_MODEL, "sender")]
 
     def mc(job):
         cfg, inv = job
         if inv == "main":
             got, r = _ckpt.model_run(ctx, V, "MC_ZSync", [cfg] if quick else [cfg, "MC_ZSync_mid.cfg"], workers=10, timeout=1200)
             return (got or cfg, inv), r
-        return job, V.tlc(ctx, "MC_ZSync", cfg, workers=2, timeout=300, heap="2g", tag="mc-" + cfg[:-4])
+        module = "MC_ZSyncSender" if cfg.startswith("MC_ZSyncSender") else "MC_ZSync"
+        return job, V.tlc(ctx, module, cfg, workers=6 if inv == "sender" else 2, timeout=600 if inv == "sender" else 300,
+                          heap="3g" if inv == "sender" else "2g", tag="mc-" + cfg[:-4])
     main, refuted, model_runs = None, {}, []
     for (cfg, inv), r in V.parallel(mc, jobs, n=4):
         if inv == "main":
@@ -263,6 +271,15 @@ def _run(ctx):
             main = r
             model_runs.append(dict(cfg=cfg, **r.summary()))
             ctx.log("model %s: %d distinct states, %d transitions, depth %d (%.0fs)" % (cfg, r.distinct, r.generated, r.depth, r.wall))
+        elif inv == "sender":
+            if r.timed_out or not (r.ok or r.violated):
+                ctx.skipped += 1
+                ctx.notes.append("%s: TLC ended without a verdict" % cfg)
+            elif not r.ok:
+                raise V.Inconclusive("%s: the sender model violates %s" % (cfg, r.violated))
+            else:
+                model_runs.append(dict(cfg=cfg, note="sending side (ZSyncSender) on top of the receiver", **r.summary()))
+                ctx.log("model %s: %d distinct states, %d transitions (%.0fs)" % (cfg, r.distinct, r.generated, r.wall))
         elif inv == "redundant":
             if r.timed_out:
                 ctx.skipped += 1
@@ -368,9 +385,13 @@ def _run(ctx):
         "quiescent state after each round (all replicas equal; data = fold of the source prefix up to the synced position); it can "
         "reproduce the open finding c19-pipelined-drop-on-leader-change, which the model shows too (MC_ZSync_pipelined, CancelPrefix). "
         "Leader kill (instead of transfer) is not driven",
-        "the sending side is exercised through the real log-syncer state machine (send loop + gRPC sender) only for the case of a "
-        "buffered batch that overlaps the destination's synced position after a sender restart; the learner's raft, its snapshot "
-        "hand-over and the ignore-send switch are not driven",
+        "the sending side is the real log-syncer state machine (logSyncerSM send loop + RemoteLogSender over gRPC to the receiver's "
+        "gRPC port): restarted incarnations that replay from at or far below the destination's position, one buffered batch or a "
+        "stream cut into several batches, the receiver stopped and started while a batch is in flight (the sender's rpc fails and is "
+        "retried), two incarnations running at once. The driver plays the learner's raft itself (ApplyRaftRequest in log order); "
+        "the learner's raft group, the sender's switch to a remote snapshot when the receiver is too far behind (PrepareSnapshot "
+        "needs the source nodes' HTTP backup-check API) and the ignore-send switch (unexported) are not driven - the receiver's "
+        "side of remote snapshots is driven directly (NotifyTransferSnap / NotifyApplySnap)",
         "remote snapshots: the success path (a usable checkpoint of the source's data as of entry i, fetched through the local copy "
         "path) on both engines, the failing apply only on pebble (the memory engine does not check a checkpoint before restoring it); "
         "one kind per receiver, because a failed snapshot blocks further ones for 5 minutes",
